@@ -307,7 +307,15 @@ class Extractor:
             txt, masked, _ = self.load(rel)
             fi = self.file_idx(rel)
             sel = ent["sel"]
-            found = self.find(rel, sel)
+            # optional "in": ["mod script", "mod stdlib", "impl Callable for Access", "fn signature"] -- containers to
+            # descend through before looking for `sel` (modules of a compiler expansion, fn items nested in a fn)
+            within = None
+            for csel in ent.get("in", []):
+                cs = [c for c in self.find(rel, csel, within=within) if c.body_open is not None]
+                if len(cs) != 1:
+                    raise Undecided("lost anchor: container `%s` of `%s` in %s: %d matches" % (csel, sel, rel, len(cs)))
+                within = cs[0]
+            found = self.find(rel, sel, within=within)
             if not found:
                 raise Undecided("lost anchor: item `%s` not found in %s" % (sel, rel))
             ent_rewrites = rewrites + ent.get("rewrites", [])
@@ -317,7 +325,8 @@ class Extractor:
                 qual_t = ent.get("qual") or rs.impl_self_type(impl0.name)
                 if header:
                     self.transforms.add("T12")
-                    out = out + OText.synthetic("\n" + header + " {\n")
+                    # optional "impl_prelude": associated items the fns need (e.g. `type Error = Error;` of a TryFrom impl)
+                    out = out + OText.synthetic("\n" + header + " {\n" + ent.get("impl_prelude", ""))
                 else:
                     h = txt[impl0.start:impl0.body_open]
                     out = out + self.phase1(OText.from_src(txt, impl0.start, impl0.body_open, fi), False, ent_rewrites) + OText.synthetic("{\n")
